@@ -7,7 +7,7 @@ import os
 from tie.framework import g_Z, g_bool, g_list, g_nat, g_opt, g_pair, g_str, run_impl_parallel
 
 PROP = "C14"
-IMPORTS = "From JV Require Import Lib.Base Model.C14ClassSpec Spec.C14Spec Corr.C14Judge."
+IMPORTS = "From JV Require Import Lib.Base Model.C14ClassSpec Model.C14Containers Spec.C14Spec Corr.C14Judge."
 RULE = ("seeded random class families in one generated module (4-8 classes: roots, single/multiple inheritance, "
         "abstract classes, **kwargs classes, int/str/Class/Optional[Class] parameters added or overridden in "
         "subclasses, functions returning a class, a non-class constant) x specs for a random declared type: explicit "
@@ -15,10 +15,13 @@ RULE = ("seeded random class families in one generated module (4-8 classes: root
         "ill-typed init_args), short forms (name only, init_args without class_path, bare dict, dotted "
         "--x.k / --x.init_args.k / nested --x.p.k / --x.dict_kwargs.k) each run together with its explicit twin, "
         "class changes between argv items (top level and nested, a quarter of them with dict_kwargs on both sides), "
-        "argument defaults, parse_object channel; plus 35 hand-made cases in every run (dotted null two levels down, "
+        "argument defaults, parse_object channel; plus 55 hand-made cases in every run (dotted null two levels down, "
         "functions with related/unrelated return type, same-named parameter of another type across a class change, "
         "dict_kwargs naming a parameter, abstract declared type, two-level nested construction, prefix-named options / "
-        "parameters with merged config sources, a family that grows between two parses); per family 2 of the 12 cases are "
+        "parameters with merged config sources, a family that grows between two parses, Dict[str, C] / List[C] options in "
+        "several sources); per family 2 of the 12 cases are one option typed Dict[str, C] or List[C] given in 2-3 sources "
+        "(the option twice, a config source, --m.key=, --m+=, --m.param= for the last element; later sources use short forms "
+        "for non-first elements, drop / add / reorder keys, change the list length), 2 are "
         "parsers with 2-3 class-typed options whose names may be string prefixes of each other (x/x_ema, x/x2, xa/x/xab) fed by "
         "2-3 merged config sources (--cfg A --cfg B, entries: full specs with class changes, init_args without class_path, "
         "bare dicts) mixed with plain argv items, and 2 are histories in one process: the module first holds a prefix of the "
@@ -38,8 +41,12 @@ ASSUMPTIONS = [
     "one generated module per family (classes may be defined in it in two stages); class names unique; constructors take keyword-only explicit parameters, do not "
     "call super().__init__ and log (id, type name, kwargs); functions forward their keywords to the returned class",
     "string values are identifiers that YAML loads as str (no numeric-looking strings); null only for Optional[Class]",
-    "parameter types int / str / Class / Optional[Class]; List/Dict/Union-of-class parameters, protocols, "
-    "Callable[..., Class] and custom instantiators are not generated",
+    "parameter types int / str / Class / Optional[Class]; Dict[str, Class] / List[Class] only as the type of the option itself "
+    "(not of constructor parameters); Union-of-class, protocols, Callable[..., Class] and custom instantiators are not "
+    "generated",
+    "an option typed Dict[str, C] / List[C] is modelled per element (coq/Model/C14Containers.v): every source replaces the "
+    "value, an element sees the previous element with the same key / (same length) position, elements of an untouched "
+    "source are re-adapted against themselves; tied per case, not proved; no explicit twin is run for these options",
     "dict_kwargs are, as documented (DOCUMENTATION.rst 'Unresolved parameters': 'arguments that will not be validated "
     "during parsing, but will be used for class instantiation'), outside the validity claim: a TypeError of the "
     "prescribed call Class(**init_args, **dict_kwargs) caused by a dict_kwargs key the callable cannot take is not "
@@ -76,7 +83,8 @@ META = {
                   "dict_kwargs key the callable cannot take is allowed by the spec. Trusted: Coq kernel/VM; faithfulness of the "
                   "hand-written model outside the generated cases (the clone/update choreography between adapt_class_type, "
                   "ActionTypeHint.__call__ and merge_config is collapsed to its net effect); the harness; import_object / "
-                  "get_import_path for a single generated module; List/Dict/Union-of-class parameters, protocols, "
+                  "get_import_path for a single generated module; the per-element model of Dict[str, C] / List[C] options and "
+                  "the product model of several options are correspondence-only; Union-of-class, protocols, "
                   "Callable[..., Class] and custom instantiators are outside the modelled space. No axioms.",
     "technique": "Rocq proof by induction on the model's recursion fuel over a structural validity predicate (two-pass "
                  "finalize: defaults pass then validation pass) and by a log-extension invariant for instantiate; "
@@ -498,6 +506,111 @@ def _gen_multi_case(rng, fam):
     return multi_case(fam, opts, argv)
 
 
+def _entry_for(rng, fam, base, prev, allow_full=True):
+    """one element of a container source: (raw, tree or None). prev = the config tree the element had before (or None)"""
+    r = rng.random()
+    if prev is None or (allow_full and r < 0.4):
+        t = gen_tree(rng, fam, base, clean=rng.random() < 0.85)
+        return tree_raw(rng, t, 0.4), t
+    ps = [p for p in params_of_path(fam, prev["cp"]) if p["ty"][0] in ("int", "str")]
+    if r < 0.5 or not ps:
+        sub = [k["name"] for k in fam["classes"] if is_sub(fam, k["name"], base) and not k["abstract"]]
+        nm = rng.choice(sub) if sub else base
+        t = {"cp": fam["mod"] + "." + nm, "ia": [], "dk": []}
+        return {"s": nm if rng.random() < 0.6 else t["cp"]}, t
+    p = rng.choice(ps)
+    kv = [[p["name"], gen_leaf(rng, p["ty"], True)]]
+    if r < 0.9:
+        return {"d": [["init_args", {"d": kv}]]}, prev      # init_args without class_path
+    return {"d": kv}, prev                                    # bare dict
+
+
+def _gen_cont_case(rng, fam):
+    """One option typed Dict[str, Base] or List[Base] given in 2-3 sources (the option twice, a config source, a dotted
+    key, --m+=): later sources address elements with short forms that rely on the element's previous class."""
+    names = [k["name"] for k in fam["classes"]]
+    base = rng.choice(names)
+    kind = "dict" if rng.random() < 0.6 else "list"
+    srcs = []
+    via = lambda: "cfg" if rng.random() < 0.3 else "opt"  # noqa: E731
+    if kind == "dict":
+        cur = {}
+        keys = ["k1", "k2", "k3"][: rng.randint(2, 3)]
+        ent = []
+        for k in keys:
+            raw, cur[k] = _entry_for(rng, fam, base, None)
+            ent.append([k, raw])
+        srcs.append({"dict": ent, "via": via()})
+        for si in range(rng.randint(1, 2)):
+            if rng.random() < 0.3:
+                k = rng.choice(keys + ["k9"])
+                raw, cur[k] = _entry_for(rng, fam, base, cur.get(k))
+                srcs.append({"key": k, "raw": raw})
+                continue
+            ks = [k for k in cur if rng.random() < 0.85] or list(cur)[:1]
+            if rng.random() < 0.3:
+                rng.shuffle(ks)
+            if rng.random() < 0.15 and "k9" not in ks:
+                ks.append("k9")
+            ent, new = [], {}
+            for k in ks:
+                raw, new[k] = _entry_for(rng, fam, base, cur.get(k))
+                ent.append([k, raw])
+            cur = new
+            srcs.append({"dict": ent, "via": via()})
+    else:
+        cur = []
+        ent = []
+        for _ in range(rng.randint(1, 3)):
+            raw, t = _entry_for(rng, fam, base, None)
+            ent.append(raw)
+            cur.append(t)
+        srcs.append({"list": ent, "via": via()})
+        for si in range(rng.randint(1, 2)):
+            r = rng.random()
+            if r < 0.5 or not cur:
+                n = len(cur) if cur and rng.random() < 0.8 else rng.randint(1, 3)
+                ent, new = [], []
+                for i in range(n):
+                    raw, t = _entry_for(rng, fam, base, cur[i] if n == len(cur) else (cur[0] if rng.random() < 0.5 else None))
+                    ent.append(raw)
+                    new.append(t)
+                cur = new
+                srcs.append({"list": ent, "via": via()})
+            elif r < 0.75:
+                raw, t = _entry_for(rng, fam, base, None)
+                cur.append(t)
+                srcs.append({"append": raw})
+            else:
+                ps = [p for p in params_of_path(fam, cur[-1]["cp"]) if p["ty"][0] in ("int", "str")]
+                if not ps:
+                    continue
+                p = rng.choice(ps)
+                srcs.append({"last": (["init_args"] if rng.random() < 0.3 else []) + [p["name"]], "raw": gen_leaf(rng, p["ty"], True)})
+    return cont_case(fam, base, kind, srcs)
+
+
+def cont_case(fam, base, kind, srcs):
+    return {"fam": fam, "base": base, "dflt": None, "steps": [], "channel": "cont", "twin": None,
+            "cont": {"kind": kind, "srcs": srcs}}
+
+
+def _cont_raws(srcs):
+    for c in srcs:
+        if "dict" in c:
+            for k, v in c["dict"]:
+                yield None, v
+        elif "list" in c:
+            for v in c["list"]:
+                yield None, v
+        elif "append" in c:
+            yield None, c["append"]
+        elif "key" in c:
+            yield None, c["raw"]
+        else:
+            yield c["last"][-1], c["raw"]
+
+
 def project(argv, name, first):
     """the items of a multi-option argv that address option `name`, as single-option steps"""
     out = []
@@ -519,14 +632,19 @@ def gen_cases_for_family(rng, fam, ncases):
     cases = []
     for j in range(ncases):
         special = None
-        if j >= ncases - 4:
-            special = "multi" if j % 2 == 0 else "history"
+        if j >= ncases - 6:
+            special = ("multi", "history", "cont")[j % 3]
         for attempt in range(8):
             if special == "multi":
                 c = _gen_multi_case(rng, fam)
                 bad = _int_meets_str(fam, c["multi"]["argv"], None) or any(
                     not project(c["multi"]["argv"], o["name"], c["multi"]["opts"][0]["name"]) for o in c["multi"]["opts"])
                 if not bad:
+                    break
+                continue
+            if special == "cont":
+                c = _gen_cont_case(rng, fam)
+                if not _int_meets_str(fam, [{"nested": [k], "raw": v} if k else {"raw": v} for k, v in _cont_raws(c["cont"]["srcs"])], None):
                     break
                 continue
             if special == "history":
@@ -713,6 +831,28 @@ def fixed_cases():
         c["twin"] = _twin(c)
         c["warm"] = {"fam": sub_family(c["fam"], 2, c["fam"]["mod"]), "base": "Base", "dflt": None, "steps": [{"raw": S(wname)}]}
         out.append(c)
+    # an option typed Dict[str, Base] / List[Base] given in several sources: later sources address elements (also not the
+    # first one) with short forms that rely on the element's earlier class and init_args
+    f = {"mod": "jvfix7", "funcs": [], "consts": ["K0"], "classes": [
+        _K("Base", [], [_P("a", ["int"], I(1))]),
+        _K("Ab", [], [_P("a", ["int"], I(4))], abstract=True),
+        _K("S1", ["Base", "Ab"], [_P("a", ["int"], I(2)), _P("b", ["str"], S("x"))], varkw=True),
+        _K("S2", ["Base", "Ab"], [_P("a", ["int"], I(3)), _P("c", ["int"], I(5))])]}
+    sp = lambda cls, **kw: D(("class_path", S("jvfix7." + cls)), ("init_args", D(*[(k, (I(v) if isinstance(v, int) else S(v))) for k, v in kw.items()])))  # noqa: E731,E501
+    ia = lambda **kw: D(("init_args", D(*[(k, (I(v) if isinstance(v, int) else S(v))) for k, v in kw.items()])))  # noqa: E731
+    first = [["k1", sp("S1", a=7)], ["k2", sp("S2", a=8)], ["k3", sp("S1", b="y")]]
+    short = [["k1", ia(b="q")], ["k2", ia(c=9)], ["k3", ia(a=9)]]
+    expl = [["k1", sp("S1", b="q")], ["k2", sp("S2", c=9)], ["k3", sp("S1", a=9)]]
+    for base in ("Base", "Ab"):
+        for second in (short, expl, short[1:], [short[2], short[0]], [["k2", S("S1")], ["k9", ia(a=1)]]):
+            out.append(cont_case(f, base, "dict", [{"dict": first, "via": "opt"}, {"dict": second, "via": "opt"}]))
+        out.append(cont_case(f, base, "dict", [{"dict": first, "via": "cfg"}, {"dict": short, "via": "cfg"}]))
+        out.append(cont_case(f, base, "dict", [{"dict": first, "via": "opt"}, {"key": "k2", "raw": ia(c=9)}, {"key": "k9", "raw": S("S2")}]))
+        lfirst = [sp("S1", a=7), sp("S2", a=8)]
+        out.append(cont_case(f, base, "list", [{"list": lfirst, "via": "opt"}, {"list": [ia(b="q"), ia(c=9)], "via": "opt"}]))
+        out.append(cont_case(f, base, "list", [{"list": lfirst, "via": "opt"}, {"list": [ia(a=0)], "via": "opt"}]))
+        out.append(cont_case(f, base, "list", [{"list": lfirst, "via": "cfg"}, {"append": S("S1")}, {"last": ["b"], "raw": S("q")},
+                                               {"last": ["init_args", "a"], "raw": I(6)}]))
     return out
 
 
@@ -741,7 +881,7 @@ def observe(cases):
         for gi, idxs in enumerate(mine):
             fam = dict(cases[idxs[0]]["fam"])
             fam["mod"] = "%s_%d_%d" % (cases[idxs[0]]["fam"]["mod"], w, gi) if False else fam["mod"]
-            batches.append({"fam": fam, "cases": [{k: cases[i].get(k) for k in ("base", "dflt", "steps", "channel", "twin", "warm", "multi")} for i in idxs]})
+            batches.append({"fam": fam, "cases": [{k: cases[i].get(k) for k in ("base", "dflt", "steps", "channel", "twin", "warm", "multi", "cont")} for i in idxs]})
         payloads.append({"batches": batches})
         index.append(mine)
     res = run_impl_parallel("c14_classes.py", payloads, timeout=1500)
@@ -829,6 +969,18 @@ def g_input(st):
     return "(IRaw %s)" % g_raw(st["raw"])
 
 
+def g_csrc(c):
+    if "dict" in c:
+        return "(CDict %s)" % g_list([g_pair(g_str(k), g_raw(v)) for k, v in c["dict"]], "(str * raw)")
+    if "key" in c:
+        return "(CDictKey %s %s)" % (g_str(c["key"]), g_raw(c["raw"]))
+    if "list" in c:
+        return "(CList %s)" % g_list([g_raw(v) for v in c["list"]], "raw")
+    if "append" in c:
+        return "(CAppend %s)" % g_raw(c["append"])
+    return "(CLast %s %s)" % (g_list([g_str(x) for x in c["last"]], "str"), g_raw(c["raw"]))
+
+
 def g_ty(ty):
     return {"int": "PInt", "str": "PStr"}.get(ty[0]) or "(%s %s)" % ("PCls" if ty[0] == "cls" else "POpt", g_str(ty[1]))
 
@@ -884,6 +1036,16 @@ def term(case, obs):
     twin = "None"
     if case.get("twin") is not None:
         twin = "(Some (%s, %s))" % (g_list([g_input(s) for s in case["twin"]], "input"), g_obs(obs["twin"]))
+    cont = "None"
+    if case.get("cont"):
+        o = obs["main"]
+        if o is not None and "rej" in o:
+            co = "None"
+        elif o is not None and "elems" in o:
+            co = "(Some %s)" % g_list([g_pair(g_str(k), g_obs(e)) for k, e in o["elems"]], "(str * obs)")
+        else:
+            co = "(Some [(%s, OOther)])" % g_str("")
+        cont = "(Some (%s, %s))" % (g_list([g_csrc(c) for c in case["cont"]["srcs"]], "csrc"), co)
     sibs = []
     if case.get("multi"):
         m = case["multi"]
@@ -892,11 +1054,11 @@ def term(case, obs):
                 g_str(o["base"]), g_opt(g_value(o["dflt"]) if o["dflt"] is not None else None),
                 g_list([g_input(x) for x in project(m["argv"], o["name"], m["opts"][0]["name"])], "input"), g_obs(ob)))
     return ("{| k_fam := %s; k_base := %s; k_dflt := %s; k_steps := %s; k_obs := %s; k_twin := %s; k_object := %s; "
-            "k_sibs := %s |}") % (
+            "k_sibs := %s; k_cont := %s |}") % (
         g_family(case["fam"]), g_str(case["base"]),
         g_opt(g_value(case["dflt"]) if case["dflt"] is not None else None),
-        g_list([g_input(s) for s in case["steps"]], "input"), g_obs(obs["main"]), twin,
-        g_bool(case["channel"] in ("object", "multi")), g_list(sibs, "part"))
+        g_list([g_input(s) for s in case["steps"]], "input"), g_obs(None if case.get("cont") else obs["main"]), twin,
+        g_bool(case["channel"] in ("object", "multi", "cont")), g_list(sibs, "part"), cont)
 
 
 # ------------------------------------------------------------------------------------------------
@@ -907,6 +1069,9 @@ def _kind(o):
         return "exception"
     if "rej" in o:
         return "rejected"
+    if "elems" in o:
+        ks = {_kind(e) for _, e in o["elems"]}
+        return "accepted/%d elements/%s" % (len(o["elems"]), "built" if ks <= {"accepted/built"} else "TypeError")
     i = o["inst"]
     return "accepted/" + ("built" if "ok" in i else "TypeError" if "typeerr" in i else "other")
 
@@ -915,6 +1080,10 @@ def nontrivial_key(case, obs):
     o = obs["main"]
     if o is None:
         return None
+    if case.get("cont"):
+        if "exc" in o or len(case["cont"]["srcs"]) < 2:
+            return None
+        return json.dumps([case["fam"], case["base"], case["cont"], o], sort_keys=True)
     if "acc" in o:
         sp = o["acc"].get("spec")
         if not sp:
@@ -932,6 +1101,9 @@ def nontrivial_key(case, obs):
 
 
 def category(case, obs):
+    if case.get("cont"):
+        c = case["cont"]
+        return "%s/%d sources/%s" % ("Dict[str,C]" if c["kind"] == "dict" else "List[C]", len(c["srcs"]), _kind(obs["main"]))
     shape = "object" if case["channel"] == "object" else (
         "%d options/%d config sources" % (len(case["multi"]["opts"]), sum(1 for x in case["multi"]["argv"] if "cfg" in x))
     ) if case.get("multi") else ("grown family/" if case.get("warm") else "") + ("default+" if case["dflt"] else "") + (
@@ -954,6 +1126,14 @@ def describe(case, obs):
                         "3. then defined in the module (plugin loaded)": [k["name"] for k in case["fam"]["classes"]
                                                                           if k["name"] not in {q["name"] for q in w["fam"]["classes"]}],
                         "4. then the parse below": "module_source shows the module after step 3"}
+    if case.get("cont"):
+        from c14_classes import cont_argv
+
+        c = case["cont"]
+        d["option"] = "--m type=%s" % ("Dict[str, %s]" % case["base"] if c["kind"] == "dict" else "List[%s]" % case["base"])
+        d["argv"] = cont_argv(c["srcs"])
+        d["observed_per_element"] = obs["main"]
+        return d
     if case.get("multi"):
         m = case["multi"]
         d["options"] = [{"--" + o["name"]: "type=" + o["base"], "default": py_value(o["dflt"]) if o["dflt"] else None} for o in m["opts"]]
@@ -970,6 +1150,19 @@ def describe(case, obs):
 
 
 def shrink(case):
+    if case.get("cont"):
+        c = case["cont"]
+        sr = c["srcs"]
+        for i in range(len(sr)):
+            if len(sr) > 1:
+                yield cont_case(case["fam"], case["base"], c["kind"], sr[:i] + sr[i + 1:])
+        for i, x in enumerate(sr):
+            for fld in ("dict", "list"):
+                if fld in x and len(x[fld]) > 1:
+                    for j in range(len(x[fld])):
+                        yield cont_case(case["fam"], case["base"], c["kind"],
+                                        sr[:i] + [dict(x, **{fld: x[fld][:j] + x[fld][j + 1:]})] + sr[i + 1:])
+        return
     if case.get("multi"):
         m = case["multi"]
         for i in range(len(m["argv"])):
